@@ -248,6 +248,8 @@ def _check_node(ctx, W, obj, m, what):
         }
         if m["k"] is not None:
             got["prv_text"] = obj.hwif(as_private=True)
+        # as_text is the other public name of the text form
+        got["as_text"] = (obj.as_text(as_private=False), obj.as_text(as_private=True) if m["k"] is not None else None)
     except Exception as e:
         ctx.violate("C09", "node-accessor-raised", {"what": what, "exc": type(e).__name__, "msg": str(e)[:160]})
         return False
@@ -279,6 +281,9 @@ def _check_node(ctx, W, obj, m, what):
             if raw[:4].hex() != ver[0 if asp else 1]:
                 ctx.violate("C09", "text-version-bytes", {"what": what, "got": raw[:4].hex(), "expected": ver[0 if asp else 1]})
                 ok = False
+    if got["as_text"] != (got["pub_text"], got.get("prv_text")):
+        ctx.violate("C09", "as-text-differs-from-hwif", {"what": what, "as_text": got["as_text"][0], "hwif": got["pub_text"]})
+        ok = False
     ctx.obs("node", what, got.get("pub_text"))
     return ok
 
